@@ -90,6 +90,16 @@ type World struct {
 	Epoch   int64                        // last confirmed epoch, -1 = none
 }
 
+// GasKeys lists the entries of a schedule section in the order of the library's structs.
+func GasKeys(section string) []string {
+	if section == "BuiltInCost" {
+		return []string{"ChangeOwnerAddress", "ClaimDeveloperRewards", "SaveUserName", "SaveKeyValue", "ESDTTransfer", "ESDTBurn",
+			"ESDTLocalMint", "ESDTLocalBurn", "ESDTNFTCreate", "ESDTNFTAddQuantity", "ESDTNFTBurn", "ESDTNFTTransfer",
+			"ESDTNFTChangeCreateOwner", "ESDTNFTMultiTransfer", "ESDTNFTAddURI", "ESDTNFTUpdateAttributes"}
+	}
+	return []string{"StorePerByte", "ReleasePerByte", "DataCopyPerByte", "PersistPerByte", "CompilePerByte", "AoTPreparePerByte"}
+}
+
 // StdGas returns a schedule of small pairwise distinct primes.
 func StdGas(variant int) map[string]map[string]uint64 {
 	primes := []uint64{101, 103, 107, 109, 113, 127, 131, 137, 139, 149, 151, 157, 163, 167, 173, 179, 2, 3, 5, 7, 11, 13,
